@@ -2,6 +2,6 @@ INIT Init
 NEXT Next
 CONSTANTS
  Procs = {1, 2}
- Len = 2
+ BlobLen = 2
  FixedTmp = TRUE
 INVARIANTS SuccessMeansStored
